@@ -32,12 +32,12 @@ tests still pass with the patch. None is ever committed in /repo.
 
 Final state: **{det} / {len(R)} detected** (exit 1, VIOLATION line, witness replayed on the unshimmed code) - {per}.
 "first result" is what the check said before I touched it (first-pass files: DESIGN.md section 7 for round 1,
-`RESULTS-r3-first-pass.json` / `RESULTS-r4-first-pass.json` / `RESULTS-r5-first-pass.json` for rounds 3 to 5); "added" is what the miss made me add - a recipe, shape or model, never a special
+`RESULTS-r3-first-pass.json` ... `RESULTS-r6-first-pass.json` for rounds 3 to 6); "added" is what the miss made me add - a recipe, shape or model, never a special
 case of the patch. Where the addition goes beyond what the property's quantifier names, or is a concrete recipe rather than a
 symbolic family, the entry says so. Patches whose context a later `fix:` commit rewrote were regenerated with the same change
 (`meta.json: rebased`).
 
-First-pass detection: round 1 29/40, round 2 33/60 (+10 flagged exit 2), round 3 10/40 (+5 flagged exit 2), round 4 15/40 (+1 flagged exit 2), round 5 18/40 (+3 flagged exit 2).
+First-pass detection: round 1 29/40, round 2 33/60 (+10 flagged exit 2), round 3 10/40 (+5 flagged exit 2), round 4 15/40 (+1 flagged exit 2), round 5 18/40 (+3 flagged exit 2), round 6 21/40 (+2 flagged exit 2).
 
 | change | what it does | first result | added to the check | final quick result |
 |---|---|---|---|---|
